@@ -21,6 +21,10 @@ OBLIGATIONS = [
     SX("sx_fasta", "sx_c12", "ob_fasta", cls="E", quick=200, thorough=600, parts={"quick": 6, "thorough": 6},
        functions=[P + "fasta/file.py:FastaFile", P + "fasta/convert.py:set_sequence(s)/get_sequences/_convert_to_string/_convert_to_sequence"],
        bounds="2 entries from a 6-sequence menu (nucleotide, ambiguous, protein with stops), as_rna on/off, chars_per_line 1/3/80, edit {none, delete, replace}"),
+    SX("sx_annotation_io", "sx_c12_annot", "ob_annotation_io", cls="E", quick=400, thorough=1800, parts={"quick": 16, "thorough": 16},
+       functions=["src/biotite/sequence/io/genbank/annotation.py:get_annotation/set_annotation/_set_qual", "src/biotite/sequence/io/genbank/sequence.py:get_annotated_sequence/set_annotated_sequence",
+                  "src/biotite/sequence/io/gff/convert.py:get_annotation/set_annotation", "src/biotite/sequence/io/gff/file.py:GFFFile.append/_create_line/_parse_attributes"],
+       bounds="1..2 features: key from 5 (thorough 6) incl. two 15-character keys; 10 location sets (single base, joins, same and MIXED strands, every defect); 6 (7) qualifier sets (spaces, slashes, '=', several values, no value only, long wrapped value); second feature from a small menu; GenBank: in memory and through text, include_only, annotated sequence with sequence start 1 and 7; GFF3: stranded and unstranded, in memory and through text"),
 ]
 EXPLANATION = "C12: sequence file formats return what was written."
 ASSUMPTIONS = []
